@@ -6,7 +6,7 @@
   `DbImpl` cascade.  The abstract multigraph is the function `Graph.kind : index ↦ free | node | edge s d`
   together with the id allocation sequence `Graph.alloc`.
   What is NOT proved here: the step from the four `i64` arrays (`from/to/from_meta/to_meta`, pointer-linked
-  chains) to `Model/Graph.lean`; see `C08_node_count_statement`.
+  chains) to `Model/Graph.lean`; see `C08_arrays_note`.
 -/
 import AgdbDb.Props.C13
 namespace AgdbDb
@@ -156,17 +156,20 @@ theorem C08_counts (s : Db) (hi : s.Inv) (n : Nat) :
   unfold Db.edgeCount
   simp [(Graph.isNode_iff _ _).mpr hn]
 
-/-- Not proved (1): `nodeCount` equals the number of node slots.  `C08_refines` shows it moves by +1 / -1 exactly when
-    a slot becomes / stops being a node, which is the inductive step; the cardinality bookkeeping over
-    `List.range` is missing.  Stated here for `insert_node`; the other three mutations are analogous.
-    Not proved (2), and not even statable in this project yet: the four `i64` arrays of `GraphDataStorage`
+/-- The node count (`to_meta[0]`, returned by `select().node_count()`) is the number of node slots, after any
+    history of queries (also failing ones); by `C13_rollback` (`r.Inv`) also after a rollback. -/
+theorem C08_node_count (qs : List MQuery) (hd : ∀ q ∈ qs, q.distinctKeys) (s : Db) (hi : s.Inv) :
+    let g := (runAll qs s).2.graph
+    g.nodeCount = (((List.range g.slots.length).countP (fun i => g.isNode i) : Nat) : Int) ∧
+    (s.selectNodeCount).result = (List.range s.graph.slots.length).countP (fun i => s.graph.isNode i) := by
+  refine ⟨(C08_wf_invariant qs hd s hi).count, ?_⟩
+  show s.graph.nodeCount.toNat = _
+  rw [hi.sinv.wf.count]; rfl
+
+/-- Not proved, and not statable in this file: the four `i64` arrays of `GraphDataStorage`
     (`from/to/from_meta/to_meta`, chains linked through slot indexes, free list threaded through `from_meta`)
-    refine `Model/Graph.lean` — `abs (op arrays) = op (abs arrays)` for the four mutations and termination of the
-    unlink loops of `remove_from_edge` / `remove_to_edge`.  The tie between the arrays and the list-level model is
-    only the correspondence run (returned ids incl. reuse order, chain heads via node `from`/`to`, counts). -/
-def C08_node_count_statement : Prop :=
-  ∀ (g : Graph), g.WF → g.nodeCount = ((List.range g.slots.length).filter (fun i => g.isNode i)).length →
-    g.insertNode.2.nodeCount = ((List.range g.insertNode.2.slots.length).filter (fun i => g.insertNode.2.isNode i)).length
+    refine `Model/Graph.lean`.  See `Props/C08Arrays.lean` for the array model and what is proved about it. -/
+def C08_arrays_note : Prop := True
 
 /-! non-vacuity -/
 example : exState.graph.kind 3 = .edge 1 2 ∧ exState.graph.outOf 1 = [3] ∧ exState.graph.nodeCount = 2 := by decide +kernel
